@@ -415,6 +415,8 @@ impl Property for C13 {
     };
     let base_aggs = serde_json::to_value(&base_res.aggregations).unwrap();
     let base_scores: std::collections::HashMap<String, u32> = crate::rank::hits(&base_res).into_iter().map(|h| (h.id, h.score.to_bits())).collect();
+    // the query has no scored term: every hit of the (score-sorted, scored) base request carries a default score
+    let base_const = base_res.hits.iter().all(|h| h.score == 0.0) || base_res.hits.iter().all(|h| h.score == 1.0);
     let base_sug = serde_json::to_value(&base_res.suggest).unwrap();
     let has_metric = ["stats", "extended_stats", "value_count", "top_hits", "percentiles", "cardinality"].iter().any(|t| has_type(&case.aggs, t));
     let has_top_hits = has_type(&case.aggs, "top_hits");
@@ -491,7 +493,7 @@ impl Property for C13 {
               out.excluded_known += 1;
               break;
             }
-          } else if has_top_hits && v.explain && ctx.is_known("C20", crate::props::c20::SIG_EXPLAIN_SCORING) && agg_cmp(&without_top_hits_lists(&aggs), &without_top_hits_lists(&base_aggs), false) == AggEq::Same {
+          } else if has_top_hits && v.explain && base_const && ctx.is_known("C20", crate::props::c20::SIG_EXPLAIN_SCORING) && agg_cmp(&without_top_hits_lists(&aggs), &without_top_hits_lists(&base_aggs), false) == AggEq::Same {
             // the listed C20 finding (explain forces scoring) seen through top_hits scores: only the
             // hit lists of top_hits differ, every count, key and metric is equal
             out.excluded_known += 1;
